@@ -71,3 +71,206 @@ def cases(tier):
                 )
             )
     return out
+
+
+# ---------------------------------------------------------------------------
+# Lindbladian
+# ---------------------------------------------------------------------------
+def hermitian(env, name, dim):
+    T = env.torch
+    rows = [[None] * dim for _ in range(dim)]
+    for i in range(dim):
+        rows[i][i] = env.real(f"{name}_{i}_{i}")
+        for j in range(i + 1, dim):
+            z = env.cplx(f"{name}_{i}_{j}")
+            rows[i][j] = z
+            rows[j][i] = z.conjugate()
+    return T.tensor(rows, dtype=T.complex128)
+
+
+def force_not_cpu(env, t):
+    """Make `t.is_cpu` False so the batched (GPU) code path is taken."""
+    T = env.torch
+    if env.mode == "real":
+
+        class NotCpu(T.Tensor):
+            @property
+            def is_cpu(self):
+                return False
+
+        return t.as_subclass(NotCpu)
+    T.FORCE_NOT_CPU = True
+    return t
+
+
+def lindblad_matmul(n, n_ops, with_phase, herm, batched=False):
+    def fn(env):
+        T = env.torch
+        L_mod = env.mod("emu_sv.lindblad_operator")
+        omega, delta, phi, U = _params(env, n, with_phase)
+        dim = 2**n
+        rho = hermitian(env, "rho", dim) if herm else env.tensor_cplx("rho", (dim, dim))
+        Ls = [env.tensor_cplx(f"L{k}", (2, 2)) for k in range(n_ops)]
+        lind = L_mod.RydbergLindbladian(
+            omegas=omega,
+            deltas=delta,
+            phis=phi,
+            pulser_lindblads=Ls,
+            interaction_matrix=U,
+            device="cpu",
+        )
+        rho_in = force_not_cpu(env, rho) if batched else rho
+        rho_before = rho.clone()
+        got = lind @ rho_in
+        env.check_eq(rho, rho_before, "operand unchanged by L@rho")
+        H = refs.dense_rydberg(T, omega, delta, phi, U, n)
+        Heff = H
+        jump = T.zeros(dim, dim, dtype=T.complex128)
+        for q in range(n):
+            for L in Ls:
+                Lq = refs.embed(T, L, q, n)
+                LdL = Lq.mH @ Lq
+                Heff = Heff - 0.5j * LdL
+                w = 2.0 if env.mutant("double_jump") else 1.0
+                jump = jump + w * (Lq @ rho @ Lq.mH)
+        A = Heff @ rho
+        if herm:
+            ref = A - rho @ Heff.mH + 1.0j * jump  # i * GKSL generator
+            label = "L@rho = i*GKSL(rho) for Hermitian rho"
+        else:
+            ref = A - A.mH + 1.0j * jump
+            label = "L@rho = Heff rho - (Heff rho)^dag + i sum L rho L^dag"
+        env.check_eq(got, ref, f"{label} (n={n}, ops={n_ops}, batched={batched})")
+        if herm:
+            # generator lemmas: trace preserving and Hermiticity preserving
+            gen = -1.0j * got
+            env.check_eq(gen.trace(), 0.0, "tr(GKSL(rho)) = 0")
+            env.check_eq(gen, gen.mH, "GKSL(rho) is Hermitian for Hermitian rho")
+            dm_mod = env.mod("emu_sv.density_matrix_state")
+            st = dm_mod.DensityMatrix(rho, gpu=False)
+            try:
+                e = lind.expect(st)
+            except AssertionError:
+                e = None
+            if e is not None:
+                env.check_eq(e, (H @ rho).trace().real, "expect = Re tr(H rho)")
+
+    return fn
+
+
+def batched_matmul(bdim, cdim):
+    def fn(env):
+        T = env.torch
+        mm = env.mod("emu_base.math.matmul")
+        left = env.tensor_cplx("A", (2, 2))
+        right = env.tensor_cplx("B", (bdim, 2, cdim))
+        before = right.clone()
+        got = mm.matmul_2x2_with_batched(left, right)
+        lref = left.mT if env.mutant("transpose") else left
+        env.check_eq(got, lref @ right, "matmul_2x2_with_batched = left @ right")
+        env.check_eq(right, before, "right operand unchanged")
+
+    return fn
+
+
+def noise_term(n_ops, dim):
+    def fn(env):
+        T = env.torch
+        j = env.mod("emu_base.jump_lindblad_operators")
+        Ls = [env.tensor_cplx(f"L{k}", (dim, dim)) for k in range(n_ops)]
+        got = j.compute_noise_from_lindbladians(Ls, dim)
+        ref = T.zeros(dim, dim, dtype=T.complex128)
+        for L in Ls:
+            ref = ref + (-0.5j) * (L.mH @ L)
+        if env.mutant("sign"):
+            ref = -ref
+        env.check_eq(got, ref, "noise = -i/2 sum L^dag L")
+
+    return fn
+
+
+COVERS_L = [
+    ("emu_sv/lindblad_operator.py", "RydbergLindbladian.__init__"),
+    ("emu_sv/lindblad_operator.py", "RydbergLindbladian._create_diagonal"),
+    ("emu_sv/lindblad_operator.py", "RydbergLindbladian.apply_local_op_to_density_matrix"),
+    ("emu_sv/lindblad_operator.py", "RydbergLindbladian.apply_density_matrix_to_local_op_T"),
+    ("emu_sv/lindblad_operator.py", "RydbergLindbladian.h_eff"),
+    ("emu_sv/lindblad_operator.py", "RydbergLindbladian._local_terms_hamiltonian"),
+    ("emu_sv/lindblad_operator.py", "RydbergLindbladian._apply_interaction_terms"),
+    ("emu_sv/lindblad_operator.py", "RydbergLindbladian.__matmul__"),
+    ("emu_sv/lindblad_operator.py", "RydbergLindbladian.expect"),
+    ("emu_base/jump_lindblad_operators.py", "compute_noise_from_lindbladians"),
+    ("emu_base/math/matmul.py", "matmul_2x2_with_batched"),
+]
+
+META = {
+    "explanation": (
+        "emu-sv's matrix-free RydbergHamiltonian.__mul__ and RydbergLindbladian.__matmul__ are executed "
+        "on symbolic complex vectors / matrices with symbolic Omega, Delta, phi, U and symbolic 2x2 jump "
+        "operators; each output entry is compared, as a polynomial identity decided by z3, with the dense "
+        "Kronecker-product Hamiltonian resp. the GKSL generator. The executor forks on phis.any() so both the "
+        "phase-free and the general path are covered; the batched (GPU) matmul path is forced through is_cpu=False."
+    ),
+    "outside": [
+        "N > 3 for the Lindbladian and N > 4 for the Hamiltonian; more than 3 jump operators",
+        "floating-point rounding (the program is read over exact reals)",
+    ],
+    "assumptions": [
+        "cos/sin are abstracted by (c,s) with c^2+s^2=1 and phi=0 => (c,s)=(1,0)",
+        "float literals denote the decimal they are written as",
+    ],
+}
+
+_cases_h = cases
+
+
+def cases(tier):  # noqa: F811
+    out = _cases_h(tier)
+    quick = tier == "quick"
+    lin = [(1, 0, False), (1, 2, True), (2, 1, True), (2, 2, False)] if quick else [
+        (1, 0, False), (1, 3, True), (2, 1, True), (2, 2, False), (2, 3, True), (3, 1, True), (3, 2, False)
+    ]
+    for n, k, ph in lin:
+        for herm in (False, True):
+            out.append(
+                Case(
+                    name=f"lindblad_n{n}_ops{k}_{'phase' if ph else 'nophase'}_{'herm' if herm else 'any'}",
+                    fn=lindblad_matmul(n, k, ph, herm),
+                    covers=COVERS_L,
+                    bounds={"n_qubits": n, "jump_ops": k, "phase": ph, "rho": "Hermitian" if herm else "arbitrary complex"},
+                    canaries=["double_jump"] if k > 0 and not herm else [],
+                    weight=4**n * (1 + k),
+                )
+            )
+    for n, k in ([(2, 1)] if quick else [(2, 2), (3, 1)]):
+        out.append(
+            Case(
+                name=f"lindblad_batched_n{n}_ops{k}",
+                fn=lindblad_matmul(n, k, True, False, batched=True),
+                covers=COVERS_L,
+                bounds={"n_qubits": n, "jump_ops": k, "path": "matmul_2x2_with_batched"},
+                canaries=["double_jump"],
+                weight=4**n * (1 + k),
+            )
+        )
+    for b, c in ([(2, 2)] if quick else [(1, 1), (2, 3), (4, 2)]):
+        out.append(
+            Case(
+                name=f"batched_matmul_{b}x2x{c}",
+                fn=batched_matmul(b, c),
+                covers=[("emu_base/math/matmul.py", "matmul_2x2_with_batched")],
+                bounds={"right_shape": [b, 2, c]},
+                canaries=["transpose"],
+            )
+        )
+    for k, d in ([(2, 2)] if quick else [(0, 2), (3, 2), (2, 3)]):
+        out.append(
+            Case(
+                name=f"noise_term_ops{k}_dim{d}",
+                fn=noise_term(k, d),
+                covers=[("emu_base/jump_lindblad_operators.py", "compute_noise_from_lindbladians")],
+                bounds={"jump_ops": k, "dim": d},
+                canaries=["sign"] if k else [],
+            )
+        )
+    return out
